@@ -38,12 +38,14 @@ func c10TierOf(name string) c10Tier {
 
 // CliFresh is a fresh-process run of the shipped binary (I2 only).
 type CliFresh struct {
-	Src     string   `json:"src_b64"`
-	SrcName string   `json:"src_name"`
-	DstName string   `json:"dst_name"`
-	Abs     bool     `json:"abs"`
-	Env     []string `json:"env"`
-	Debug   bool     `json:"debug_flag"`
+	Src      string   `json:"src_b64"`
+	SrcName  string   `json:"src_name"`
+	DstName  string   `json:"dst_name"`
+	Abs      bool     `json:"abs"`
+	Env      []string `json:"env"`
+	Debug    bool     `json:"debug_flag"`
+	Sim      bool     `json:"seeded_entropy_binary,omitempty"`
+	InitSeed uint64   `json:"init_seed,omitempty"`
 }
 
 type cliOutcome struct {
@@ -68,11 +70,17 @@ func (c *simCtx) runCli(cf *CliFresh) cliOutcome {
 		sa, da = sp, filepath.Join(dir, cf.DstName)
 	}
 	argv := []string{c.b.Cli}
+	env := cf.Env
+	if cf.Sim {
+		argv = []string{c.b.CliSim}
+		// one P and no background GC: otherwise sync.Pool hits/misses shift the entropy draw count
+		env = append(append([]string{}, cf.Env...), fmt.Sprintf("VERIFSIM_INIT_SEED=%d", cf.InitSeed), "GOMAXPROCS=1", "GOGC=off")
+	}
 	if cf.Debug {
 		argv = append(argv, "-d")
 	}
 	argv = append(argv, sa, da)
-	pr := runProc(workerWatchdog, dir, baseEnv(cf.Env...), argv...)
+	pr := runProc(workerWatchdog, dir, baseEnv(env...), argv...)
 	if pr.TimedOut {
 		infraFail("gosk CLI watchdog expired on %s", cf.SrcName)
 	}
@@ -196,6 +204,7 @@ func runC10(tierName string) int {
 	c := &simCtx{b: b, runRoot: filepath.Join(b.Scratch, "runs")}
 	par := envInt("VERIF_PAR", 16)
 
+	longHistories = tier.name == "thorough"
 	pool := buildPool(baseSeed, tier.nGen, filepath.Join(verifDir(), "corpus"))
 	variants := []string{"sim", "native"}
 	classes := map[string]string{}
@@ -264,35 +273,44 @@ func runC10(tierName string) int {
 	{
 		type cj struct {
 			pi, k int
+			sim   bool
 		}
 		var jobs []cj
 		for pi := range pool {
 			for k := 0; k < tier.cliK; k++ {
-				jobs = append(jobs, cj{pi, k})
+				jobs = append(jobs, cj{pi, k, false})
+			}
+			for k := 0; k < tier.cliK; k++ {
+				jobs = append(jobs, cj{pi, k, true})
 			}
 		}
 		outs := make([]cliOutcome, len(jobs))
 		cfs := make([]*CliFresh, len(jobs))
 		parallelDo(len(jobs), par, func(i int) {
 			jb := jobs[i]
-			r := NewRNG(deriveSeed(baseSeed, 300, uint64(jb.pi)*64+uint64(jb.k)))
-			cf := &CliFresh{Src: base64.StdEncoding.EncodeToString(pool[jb.pi].Src), SrcName: pick(r, []string{"in.nas", "src.asm", "a.nas", "prog.nas"}), DstName: pick(r, destNames), Abs: r.Chance(1, 2), Env: drawProcEnv(r, true), Debug: r.Chance(1, 5)}
+			tag := uint64(300)
+			if jb.sim {
+				tag = 301
+			}
+			r := NewRNG(deriveSeed(baseSeed, tag, uint64(jb.pi)*64+uint64(jb.k)))
+			cf := &CliFresh{Sim: jb.sim, InitSeed: r.U64() % 1000000007, Src: base64.StdEncoding.EncodeToString(pool[jb.pi].Src), SrcName: pick(r, []string{"in.nas", "src.asm", "a.nas", "prog.nas"}), DstName: pick(r, destNames), Abs: r.Chance(1, 2), Env: drawProcEnv(r, true), Debug: r.Chance(1, 5)}
 			cfs[i] = cf
 			outs[i] = c.runCli(cf)
 		})
 		cliRuns = len(jobs)
+		cliReported := map[bool]bool{}
 		for i, jb := range jobs {
-			if jb.k == 0 {
+			if jb.k == 0 || cliReported[jb.sim] {
 				continue
 			}
 			first := outs[i-jb.k]
 			if outs[i] != first {
 				cliDisagree++
-				report(&ReplayFile{Property: "C10", Kind: "c10-cli", BaseSeed: baseSeed, Tier: tier.name, Exact: false,
+				report(&ReplayFile{Property: "C10", Kind: "c10-cli", BaseSeed: baseSeed, Tier: tier.name, Exact: jb.sim,
 					Violation: Violation{Property: "C10", Class: "I2-fresh-processes-disagree", Op: -1, ProgKey: pool[jb.pi].Key,
-						Detail: "two fresh runs of the shipped gosk binary on the same source disagree (" + pool[jb.pi].P.Name + ")", Expected: first.String(), Observed: outs[i].String()},
+						Detail: "two fresh runs of the gosk command on the same source disagree (" + pool[jb.pi].P.Name + fmt.Sprintf("; seeded-entropy binary=%v)", jb.sim), Expected: first.String(), Observed: outs[i].String()},
 					CliPair: []*CliFresh{cfs[i-jb.k], cfs[i]}})
-				break
+				cliReported[jb.sim] = true // one report per binary is enough; all are counted
 			}
 		}
 	}
